@@ -48,7 +48,7 @@ inline constexpr void convert_type_fundamental(T_To& to,
 
     // The source may be a location in sandbox memory: read it once, so that
     // the value that is range checked is the value that is converted
-    RLBOX_VERIF_READ(&from_loc);
+    RLBOX_VERIF_CONV_READ(&from_loc);
     const std::remove_cv_t<T_From> from = from_loc;
 
     const char* err_msg =
